@@ -165,6 +165,7 @@ type PropSpec struct {
 	ID          string
 	Explanation string   // what structural clause is decided
 	NotDecided  string   // what is not
+	Technique   string   // a few words naming the deciding method
 	Assumptions []string // trusted base
 	Rules       []func(*Ctx)
 }
